@@ -8,16 +8,26 @@ sys.path.insert(0, os.path.dirname(os.path.dirname(os.path.abspath(__file__))))
 from pbt import core  # noqa: E402
 
 core.setup_repo_path()
-from pbt import hist, snap  # noqa: E402
+from pbt import hist, prog, snap  # noqa: E402
 
 
 def main():
     roots = json.load(sys.stdin)
     out = []
+    # C02_CTX_ORDER: the order in which this interpreter renders under the six class contexts ("r" reversed, "k" rotated by k);
+    # a pure rendering function gives every context the same text whatever was rendered before in the process
+    order = os.environ.get("C02_CTX_ORDER", "0")
+    ctxs = list(snap.CTXS)
+    ctxs = ctxs[::-1] if order == "r" else ctxs[int(order) % len(ctxs):] + ctxs[:int(order) % len(ctxs)]
     for r in roots:
         try:
             o = hist.build_root(r)
-            s = snap.render_snapshot(o)
+            if order != "0":
+                try:
+                    o.get_sql(prog.sql_context(ctxs[0]))  # this interpreter's first rendering of the object is not str()
+                except Exception:
+                    pass
+            s = snap.render_snapshot(o, contexts=ctxs)
             try:
                 s["hash_stable"] = repr(hash(o) == hash(o))
             except Exception as e:
